@@ -394,4 +394,180 @@ example : WfTab [⟨(1, 1), [], [.nominal false 1 2 []]⟩, ⟨(1, 2), [], [.nom
     · cases h; simp at hs; exact ⟨_, _, _, _, hs⟩
     · cases h
 
+/-! ## No duplicates in the list collected by the memoised walk -/
+
+/-- visiting a type whose toplevel is already on the path sets the flag (or exhausts the budget) -/
+theorem memo_path_hit (tab : List Decl) (fuel : Nat) (path : List (Nat × Nat)) (t : Ty) (acc : SupAcc)
+    (κ : Nat × Nat) (hk : keyOf t = some κ) (hp : κ ∈ path) :
+    (resolveSupersMF tab fuel path t acc).2.1 = true ∨ (resolveSupersMF tab fuel path t acc).2.2 = true := by
+  cases fuel with
+  | zero => right; simp [resolveSupersMF]
+  | succ fuel =>
+    left
+    rw [resolveSupersMF_succ, hk]
+    simp [hp]
+
+theorem memoStep_flag_mono (tab : List Decl) (fuel : Nat) (path : List (Nat × Nat)) (a : SupAcc) (s : Ty)
+    (h : a.2.1 = true) : (memoStep tab fuel path a s).2.1 = true := by
+  simp only [memoStep]
+  split
+  · exact h
+  · exact cyclic_flag_monotone_memo tab fuel path s a h
+
+theorem memoStep_exh_mono (tab : List Decl) (fuel : Nat) (path : List (Nat × Nat)) (a : SupAcc) (s : Ty)
+    (h : a.2.2 = true) : (memoStep tab fuel path a s).2.2 = true := by
+  simp only [memoStep]
+  split
+  · exact h
+  · exact memo_exhausted_monotone tab fuel path s a h
+
+theorem fold_exh_mono (f : SupAcc → Ty → SupAcc) (hm : ∀ a s, a.2.2 = true → (f a s).2.2 = true) :
+    ∀ (l : List Ty) (acc : SupAcc), acc.2.2 = true → (l.foldl f acc).2.2 = true
+  | [], _, h => h
+  | s :: l, acc, h => fold_exh_mono f hm l (f acc s) (hm acc s h)
+
+/-- Everything an unflagged, unexhausted walk appends has a toplevel that is neither on the path nor
+the toplevel of the visited type. -/
+theorem memo_pushed_keys (tab : List Decl) : ∀ (fuel : Nat) (path : List (Nat × Nat)) (t : Ty) (acc : SupAcc),
+    (resolveSupersMF tab fuel path t acc).2.1 = false → (resolveSupersMF tab fuel path t acc).2.2 = false →
+    ∀ e ∈ (resolveSupersMF tab fuel path t acc).1,
+      e ∈ acc.1 ∨ ∀ κ, keyOf e = some κ → κ ∉ path ∧ keyOf t ≠ some κ
+  | 0, _, _, acc, _, hx => by simp [resolveSupersMF] at hx
+  | fuel + 1, path, t, acc, hf, hx => by
+    rw [resolveSupersMF_succ] at hf hx ⊢
+    cases hk : keyOf t with
+    | none => simp only [hk] at hf hx ⊢; intro e he; exact Or.inl he
+    | some k =>
+      simp only [hk] at hf hx ⊢
+      by_cases hnp : path.contains k = true
+      · simp [hnp] at hf
+      · have hnp' : path.contains k = false := by simpa using hnp
+        simp only [hnp', Bool.false_eq_true, if_false] at hf hx ⊢
+        cases hd : findDecl tab k with
+        | none => simp only [hd] at hf hx ⊢; intro e he; exact Or.inl he
+        | some d =>
+          simp only [hd] at hf hx ⊢
+          have hfold : ∀ (l : List Ty) (a : SupAcc),
+              (l.foldl (memoStep tab fuel (k :: path)) a).2.1 = false →
+              (l.foldl (memoStep tab fuel (k :: path)) a).2.2 = false →
+              ∀ e ∈ (l.foldl (memoStep tab fuel (k :: path)) a).1,
+                e ∈ a.1 ∨ ∀ κ, keyOf e = some κ → κ ∉ k :: path := by
+            intro l
+            induction l with
+            | nil => intro a _ _ e he; exact Or.inl he
+            | cons s l ih =>
+              intro a hf' hx' e he
+              simp only [List.foldl_cons] at hf' hx' he
+              have hfa : (memoStep tab fuel (k :: path) a s).2.1 = false := by
+                cases h : (memoStep tab fuel (k :: path) a s).2.1 with
+                | false => rfl
+                | true =>
+                  have := fold_flag_mono _ (memoStep_flag_mono tab fuel (k :: path)) l _ h
+                  rw [this] at hf'; cases hf'
+              have hxa : (memoStep tab fuel (k :: path) a s).2.2 = false := by
+                cases h : (memoStep tab fuel (k :: path) a s).2.2 with
+                | false => rfl
+                | true =>
+                  have := fold_exh_mono _ (memoStep_exh_mono tab fuel (k :: path)) l _ h
+                  rw [this] at hx'; cases hx'
+              rcases ih _ hf' hx' e he with h1 | h1
+              · -- e was in the accumulator after this step
+                by_cases hm : (a.1.any fun u => sameType u s) = true
+                · simp only [memoStep, hm, if_true] at h1; exact Or.inl h1
+                · simp only [memoStep, hm] at h1 hfa hxa
+                  rcases List.mem_append.1 h1 with h2 | h2
+                  · rcases memo_pushed_keys tab fuel (k :: path) s a hfa hxa e h2 with h3 | h3
+                    · exact Or.inl h3
+                    · exact Or.inr fun κ hκ => (h3 κ hκ).1
+                  · simp at h2; subst h2
+                    right
+                    intro κ hκ hin
+                    rcases memo_path_hit tab fuel (k :: path) e a κ hκ hin with h | h
+                    · rw [h] at hfa; cases hfa
+                    · rw [h] at hxa; cases hxa
+              · exact Or.inr h1
+          intro e he
+          rcases hfold _ acc hf hx e he with h | h
+          · exact Or.inl h
+          · right
+            intro κ hκ
+            have := h κ hκ
+            simp only [List.mem_cons, not_or] at this
+            exact ⟨this.2, by intro hc; cases hc; exact this.1 rfl⟩
+
+/-- no two collected types are "the same type" -/
+def NoDupS (l : List Ty) : Prop := l.Pairwise (fun e s => sameType e s = false)
+
+def Good2 (a : SupAcc) : Prop := a.2.1 = true ∨ a.2.2 = true ∨ NoDupS a.1
+
+/-- The memoised walk never collects a type twice (unless it flags a cycle / runs out of budget). -/
+theorem memo_nodup_invariant (tab : List Decl) (hw : WfTab tab) : ∀ (fuel : Nat) (path : List (Nat × Nat))
+    (t : Ty) (acc : SupAcc), Good2 acc → Good2 (resolveSupersMF tab fuel path t acc)
+  | 0, _, _, _, _ => by simp [resolveSupersMF, Good2]
+  | fuel + 1, path, t, acc, hg => by
+    rw [resolveSupersMF_succ]
+    split
+    · exact hg
+    · rename_i k hk
+      split
+      · exact Or.inl rfl
+      · split
+        · exact hg
+        · rename_i d hd
+          have hfold : ∀ (l : List Ty) (a : SupAcc), (∀ s ∈ l, ∃ st m i ts, s = Ty.nominal st m i ts) →
+              Good2 a → Good2 (l.foldl (memoStep tab fuel (k :: path)) a) := by
+            intro l
+            induction l with
+            | nil => intro a _ h; exact h
+            | cons s l ih =>
+              intro a hnom ha
+              simp only [List.foldl_cons]
+              apply ih _ (fun x hx => hnom x (by simp [hx]))
+              obtain ⟨st, m, i, ts, hs_eq⟩ := hnom s (by simp)
+              subst hs_eq
+              by_cases hm : (a.1.any fun u => sameType u (Ty.nominal st m i ts)) = true
+              · simpa [memoStep, hm] using ha
+              · simp only [memoStep, hm]
+                have hr := memo_nodup_invariant tab hw fuel (k :: path) (Ty.nominal st m i ts) a ha
+                have hpk := memo_pushed_keys tab fuel (k :: path) (Ty.nominal st m i ts) a
+                generalize resolveSupersMF tab fuel (k :: path) (Ty.nominal st m i ts) a = r at hr hpk
+                by_cases hf : r.2.1 = true
+                · exact Or.inl hf
+                by_cases hx : r.2.2 = true
+                · exact Or.inr (Or.inl hx)
+                have hnd : NoDupS r.1 := by
+                  rcases hr with h | h | h
+                  · exact absurd h hf
+                  · exact absurd h hx
+                  · exact h
+                refine Or.inr (Or.inr ?_)
+                show NoDupS (r.1 ++ [Ty.nominal st m i ts])
+                unfold NoDupS
+                rw [List.pairwise_append]
+                refine ⟨hnd, by simp, ?_⟩
+                intro e he s' hs'
+                have hs'' : s' = Ty.nominal st m i ts := by simpa using hs'
+                subst hs''
+                cases hse : sameType e (Ty.nominal st m i ts) with
+                | false => rfl
+                | true =>
+                  exfalso
+                  have hkey := sameType_keyOf e _ (m, i) hse (by simp [keyOf])
+                  rcases hpk (by simpa using hf) (by simpa using hx) e he with h | h
+                  · apply hm
+                    exact (any_iff_MemIn a.1 _).2 ⟨e, h, hse⟩
+                  · exact (h (m, i) hkey).2 (by simp [keyOf])
+          apply hfold _ acc _ hg
+          intro s hs
+          simp only [List.mem_map] at hs
+          obtain ⟨sup, hsup, rfl⟩ := hs
+          obtain ⟨st, m, i, ts, rfl⟩ := hw k d hd sup hsup
+          exact ⟨st, m, i, _, by simp [subst]⟩
+
+/-- **No duplicates.** Unless `is_cyclic` is set (or the model's budget ran out) the list collected
+by the memoised walk contains no two types that are the same type. -/
+theorem memo_result_nodup (tab : List Decl) (hw : WfTab tab) (t : Ty) :
+    (resolveSupersM tab t).2.1 = true ∨ (resolveSupersM tab t).2.2 = true ∨ NoDupS (resolveSupersM tab t).1 :=
+  memo_nodup_invariant tab hw (tab.length + 2) [] t ([], false, false) (Or.inr (Or.inr List.Pairwise.nil))
+
 end SamVerif.Gates
